@@ -163,7 +163,25 @@ def rule_resolution(ctx):
         oklib = False
         if len(libcalls) == 1:
             cl = conditions_to(ai["body"], libcalls[0]) or []
-            oklib = len(cl) == 1 and cl[0][0] == "iflet" and cl[0][3] and render(cl[0][1]).replace(" ", "").startswith("Err(") and any(x is canon[0] for x in walk(cl[0][2])) and render(strip(libcalls[0]["args"][0])) == inc
+            le_ = let_env(ai["body"], libcalls[0])
+
+            def is_canon(x):
+                x = strip(x)
+                if x["k"] == "Path" and x["path"] in le_:
+                    x = strip(le_[x["path"]])
+                return any(y is canon[0] or (y["k"] == "Call" and render(y) == render(canon[0])) for y in walk(x))
+
+            if len(cl) == 1 and render(strip(libcalls[0]["args"][0])) == inc:
+                c0 = cl[0]
+                if c0[0] == "iflet":
+                    pt = render(c0[1]).replace(" ", "")
+                    oklib = is_canon(c0[2]) and ((pt.startswith("Err(") and bool(c0[3])) or (pt.startswith("Ok(") and not c0[3]))
+                elif c0[0] == "if":
+                    x = strip(c0[1])
+                    pos = bool(c0[2])
+                    while x["k"] == "Unary" and x["op"] == "!":
+                        x, pos = strip(x["e"]), not pos
+                    oklib = x["k"] == "MethodCall" and not x["args"] and is_canon(x["recv"]) and ((x["method"] == "is_err" and pos) or (x["method"] == "is_ok" and not pos))
         ctx.check(R, "add_include/libraries-only-on-failure", oklib, "include_library under %s" % (facts_str(conditions_to(ai["body"], libcalls[0]) or []) if libcalls else "-"), site(INC, ai))
         # the canonicalisation is unconditional
         cs = conditions_to(ai["body"], canon[0]) or []
@@ -251,7 +269,10 @@ def rule_resolution(ctx):
                         maps = [c for c in chain if c["method"] == "map"]
                         if all(m_["args"] and m_["args"][0]["k"] == "Closure" and strip(m_["args"][0]["body"])["k"] == "Path" and strip(m_["args"][0]["body"])["path"] in [b_["name"] for i_ in m_["args"][0]["inputs"] for b_ in walk(i_) if b_["k"] == "PIdent"] for m_ in maps) and not (conditions_to(pf["body"], ext) or []):
                             oki = True
-        ctx.check(R, "parse_file/every-include-resolved-and-errors-reported", oki, "every include of the parsed file goes through add_include and an Err is pushed to the reports", site(LIB, pf))
+        ev = eval_parse_file(ctx, R, pf)
+        if ev is not None:
+            oki = ev[0]
+        ctx.check(R, "parse_file/every-include-resolved-and-errors-reported", oki, (ev[1] if ev is not None else "every include of the parsed file goes through add_include and an Err is pushed to the reports"), site(LIB, pf))
         # ... whenever the file was parsed: between the successful parse and the queueing of its includes nothing leaves
         # the function (a version error of this file is a report, its includes are still read)
         ai = list(method_calls(pf["body"], "add_include"))
@@ -411,6 +432,73 @@ USER_INPUT_READERS = {
     ("parser/src/include_logic.rs", "is_user_input"): "the accessor",
     ("parser/src/include_logic.rs", "new"): "the files named on the command line",
 }
+
+
+def eval_parse_file(ctx, R, pf):
+    """parse_file by evaluation: the file has three includes, each of which add_include accepts or refuses (8 worlds),
+    and the version check passes with one warning or fails; every include must be handed to add_include exactly once,
+    and the returned collection must hold exactly the refusals and the outcome of the version check.
+    Returns (ok, detail), or None when the function is outside the evaluator's subset."""
+    import itertools
+
+    import passeval
+    from finfun import S, Unsupported
+    from passeval import O, Panic, Sink
+
+    try:
+        w = passeval.PassWorld([], LIB)
+    except Exception:  # noqa: BLE001
+        return None
+    names = [i["pat"].get("name") if i["pat"]["k"] == "PIdent" else None for i in pf["sig"]["inputs"]]
+    tys = [i["ty"].replace(" ", "") for i in pf["sig"]["inputs"]]
+    if tys != ["&PathBuf", "&mutFileStack", "&mutFileLibrary", "&Version"]:
+        return None
+    n = 0
+    for outcome in itertools.product((True, False), repeat=3):
+        for version_ok in (True, False):
+            incs = [O("include#%d" % i) for i in range(3)]
+            errs = [O("include-error#%d" % i) for i in range(3)]
+            asked = []
+
+            def add_include(inc, asked=asked, incs=incs, errs=errs, outcome=outcome):
+                for i, x in enumerate(incs):
+                    if x is inc:
+                        asked.append(i)
+                        return S("Ok", ("T", ())) if outcome[i] else S("Err", errs[i])
+                raise Unsupported("add_include called with %r" % (inc,))
+
+            program = ("O", "program", (("includes", ("L", tuple(incs))), ("compiler_version", O("version-of-file"))))
+            warn, verr = O("version-warning"), O("version-error")
+            w.stubs["open_file"] = lambda args: S("Ok", ("T", (O("path"), O("source"))))
+            w.stubs["check_file_compiler_version"] = (lambda args: S("Ok", ("L", (warn,)))) if version_ok else (lambda args: S("Err", verr))
+            w.opaque = (("parser_logic::", lambda name, args: S("Ok", program) if name == "parse_file" else ("K", name, tuple(args))),)
+            stack = ("O", "file_stack", (("add_include", ("PY", add_include)), ("is_user_input", ("PY", lambda p_: True))))
+            lib = ("O", "file_library", (("add_file", ("PY", lambda *a: O("file_id"))),))
+            w.lenient_opaque = True
+            try:
+                res = w.call_fn(pf, [O("file_path"), stack, lib, O("compiler_version")])
+            except Unsupported as u:
+                ctx.note("parse_file is outside the evaluator's subset (%s): shape obligations apply" % u)
+                return None
+            except Panic as p_:
+                return (False, "includes accepted %s: panics (%s)" % (list(outcome), p_))
+            n += 1
+            tag = "includes accepted %s, version check %s" % (list(outcome), "passes" if version_ok else "fails")
+            if sorted(asked) != [0, 1, 2]:
+                return (False, "%s: add_include is asked for includes %s, expected each of the three once" % (tag, asked))
+            if not (isinstance(res, tuple) and res[0] == "S" and res[1] == "Ok" and isinstance(res[2][0], tuple) and res[2][0][0] == "T" and len(res[2][0][1]) == 3):
+                return (False, "%s: returns %r" % (tag, res))
+            coll = res[2][0][1][2]
+            items = list(coll.items) if isinstance(coll, Sink) else (list(coll[1]) if isinstance(coll, tuple) and coll[0] == "L" else None)
+            if items is None:
+                raise_ = "%s: the third component is %r" % (tag, coll)
+                return (False, raise_)
+            want = [errs[i] for i in range(3) if not outcome[i]] + [warn if version_ok else verr]
+            missing = [x[1] for x in want if not any(y is x for y in items)]
+            extra = [y for y in items if not any(y is x for x in want)]
+            if missing or extra or len(items) != len(want):
+                return (False, "%s: the returned reports lack %s and hold %d other item(s)" % (tag, missing, len(extra)))
+    return (True, "%d worlds: each include handed to add_include once; the returned reports are exactly the refusals and the version check's outcome" % n)
 
 
 def rule_who_asks(ctx, R="C19.6"):
